@@ -436,6 +436,10 @@ def _fixed_inputs(case):
         data, vecs = data.astype(dt), [v.astype(dt) for v in vecs]
     lay = case.get('layout')
     desc = {'subj': [('b', 'a', 'c')[s % 3] for s in range(n)]} if case.get('rdmdesc') else None
+    if case.get('index_repeats'):
+        # a stack as it comes out of a resample / selection: its 'index' descriptor has repeated values and gaps (every RDM is
+        # still one subject of the classical across-subject statistics)
+        desc = dict(desc or {}, index=[(0, 0, 2, 5, 5, 5, 7, 9, 9, 11, 12, 12)[s % 12] for s in range(n)])
     models = [ModelFixed('m%d' % k, _layout(v, lay)) for k, v in enumerate(vecs)]
     return (models, lambda: RDMs(_layout(data, lay), rdm_descriptors=desc),
             [np.asarray(v, dtype=float) for v in vecs], np.asarray(data, dtype=float))
@@ -1368,6 +1372,12 @@ def _sweeps(thorough):
                 k += 1
                 add('C06/fixed-t', orc_fixed_t, dict(seed=9000 + k, n_rdm=nr, n_cond=n_cond, M=M, method=method, noise=0.5),
                     'three-conditions' if n_cond == 3 else 'larger-sizes', 'eval_fixed')
+        # data RDMs whose 'index' descriptor has repeated values (a resampled / selected stack)
+        for n_cond, nr, M in ((4, 6, 2), (5, 9, 3)):
+            for method in ('corr', 'cosine'):
+                k += 1
+                add('C06/fixed-t', orc_fixed_t, dict(seed=9000 + k, n_rdm=nr, n_cond=n_cond, M=M, method=method, noise=0.5,
+                                                     index_repeats=True), 'data-index-with-repeats', 'eval_fixed')
         # the Result after a round trip through its dictionary form / an HDF5 file: more subjects than conditions and vice versa
         for n_cond, nr, M in ((4, 12, 2), (6, 4, 3), (5, 5, 2)):
             for rt in ('dict', 'hdf5'):
